@@ -156,7 +156,7 @@ func runMysql(r *core.Run) {
 		}
 		s = s[:len(s):len(s)]
 		r.Begin("my-malframe-"+core.Hex(s), len(s) > 0, "stream:malformed", "my:malformed-frame")
-		r.Do("C12.my.read " + core.Hex(s))
+		noPanic(r, "my-read-panic", "C12.my.read "+core.Hex(s), r.Do("C12.my.read "+core.Hex(s)))
 	}
 
 	// ---- 2. SetData / replaceQuery: header length = payload length ----
@@ -166,7 +166,7 @@ func runMysql(r *core.Run) {
 		r.Begin(fmt.Sprintf("my-setdata-%d", len(d)), true, "stream:structured", "my:setdata")
 		got := r.Do("C12.my.setdata " + core.Hex(hdr) + " " + core.Hex(d))
 		want := myEncodePayload(int(hdr[3]), d)
-		r.Check(got == core.Hex(want[:4])+" "+showBig(want), "my-setdata", "SetData does not produce a well-formed packet")
+		r.Check(got == "ok "+core.Hex(want[:4])+" "+showBig(want), "my-setdata", "SetData does not produce a well-formed packet")
 	}
 	for _, n := range []int{myMaxPayload - 1, myMaxPayload, myMaxPayload + 1, 1 << 25} {
 		r.Begin(fmt.Sprintf("my-setdata-len-%d", n), true, "stream:boundary", "my:setdata-16m")
@@ -180,7 +180,7 @@ func runMysql(r *core.Run) {
 		if n >= myMaxPayload {
 			class = "my-setdata-16m"
 		}
-		r.Check(got == want, class, fmt.Sprintf("SetData with a %d-byte payload writes header %s (first fragment should declare %s)", n, got, want))
+		r.Check(got == "ok "+want, class, fmt.Sprintf("SetData with a %d-byte payload writes header %s (first fragment should declare %s)", n, got, want))
 	}
 	for i := 0; i < r.N(60, 1500); i++ {
 		hdr := rd.Bytes(4)
@@ -245,7 +245,8 @@ func runMysql(r *core.Run) {
 		}
 		ts := randTrs(rd, n, false)
 		r.Begin(fmt.Sprintf("my-maltextrow-%d-%s", n, core.Hex(enc)), true, "stream:malformed", "my:malformed-textrow")
-		r.Do(fmt.Sprintf("C12.my.textrow %d %s %s", n, showTrs(ts), core.Hex(enc)))
+		tl := fmt.Sprintf("C12.my.textrow %d %s %s", n, showTrs(ts), core.Hex(enc))
+		noPanic(r, "my-textrow-panic", tl, r.Do(tl))
 	}
 
 	// ---- 4. binary rows ----
@@ -322,7 +323,8 @@ func runMysql(r *core.Run) {
 		}
 		ts := myRandBinTrs(rd, types, false)
 		r.Begin(fmt.Sprintf("my-malbinrow-%s-%s", showNats(types), core.Hex(enc)), true, "stream:malformed", "my:malformed-binrow")
-		r.Do(fmt.Sprintf("C12.my.binrow %s %s %s", showNats(types), showTrs(ts), core.Hex(enc)))
+		bl := fmt.Sprintf("C12.my.binrow %s %s %s", showNats(types), showTrs(ts), core.Hex(enc))
+		noPanic(r, "my-binrow-panic", bl, r.Do(bl))
 	}
 }
 
